@@ -343,13 +343,183 @@ theorem funcKey_inj {ps rs ps' rs' : List Nat} {v v' : Bool} (h : funcKey ps rs 
   · exact map_dec_inj (joinSep_inj _ _ (decs_clean ',' (by decide) rs) (decs_clean ',' (by decide) rs') h2.1)
 
 /-- constructors whose cache key is injective without any side condition -/
+/-! ### structs: the repaired key (length-prefixed names, tags and package path; all flags) is injective -/
+
+theorem colon_not_dec (n : Nat) : ':' ∉ dec n := fun h => by have := dec_digit h; simp [Char.isDigit] at this
+
+/-- a length-prefixed string can be split off unambiguously -/
+theorem lenStr_inj {x x' r r' : Str} (h : lenStr x ++ r = lenStr x' ++ r') : x = x' ∧ r = r' := by
+  simp only [lenStr, List.append_assoc, List.cons_append] at h
+  have h1 := append_sep_inj (colon_not_dec _) (colon_not_dec _) h
+  have hl : x.length = x'.length := dec_inj h1.1
+  exact List.append_inj h1.2 hl
+
+/-- a run of digits followed by a non-digit can be split off unambiguously -/
+theorem digits_inj : ∀ {a a' b b' : Str} {c c' : Char}, (∀ x ∈ a, x.isDigit = true) → (∀ x ∈ a', x.isDigit = true) →
+    c.isDigit = false → c'.isDigit = false → a ++ c :: b = a' ++ c' :: b' → a = a' ∧ c = c' ∧ b = b'
+  | [], [], _, _, _, _, _, _, _, _, h => by simp_all
+  | [], y :: a', _, _, _, _, _, h2, hc, _, h => by
+    simp only [List.nil_append, List.cons_append, List.cons.injEq] at h
+    have := h2 y (by simp); rw [← h.1] at this; simp_all
+  | x :: a, [], _, _, _, _, h1, _, _, hc', h => by
+    simp only [List.nil_append, List.cons_append, List.cons.injEq] at h
+    have := h1 x (by simp); rw [h.1] at this; simp_all
+  | x :: a, y :: a', b, b', c, c', h1, h2, hc, hc', h => by
+    simp only [List.cons_append, List.cons.injEq] at h
+    have := @digits_inj a a' b b' c c' (fun z hz => h1 z (by simp [hz])) (fun z hz => h2 z (by simp [hz])) hc hc' h.2
+    simp_all
+
+theorem flagE_inj {a b : Bool} (h : (if a then 'E' else 'e') = (if b then 'E' else 'e')) : a = b := by
+  cases a <;> cases b <;> simp_all
+theorem flagX_inj {a b : Bool} (h : (if a then 'X' else 'x') = (if b then 'X' else 'x')) : a = b := by
+  cases a <;> cases b <;> simp_all
+
+theorem fieldKey_inj {f g : Field} {r r' : Str} (h : fieldKey f ++ r = fieldKey g ++ r') : f = g ∧ r = r' := by
+  simp only [fieldKey, List.append_assoc, List.cons_append] at h
+  have h1 := lenStr_inj h
+  have h2 := digits_inj (fun x hx => dec_digit hx) (fun x hx => dec_digit hx)
+    (by cases f.embedded <;> decide) (by cases g.embedded <;> decide) h1.2
+  have h3 := h2.2.2
+  simp only [List.cons.injEq] at h3
+  have h4 := lenStr_inj h3.2
+  refine ⟨?_, h4.2⟩
+  cases f; cases g
+  simp only [Field.mk.injEq]
+  exact ⟨h1.1, flagE_inj h2.2.1, flagX_inj h3.1, dec_inj h2.1, h4.1⟩
+
+theorem fieldKey_ne_nil (f : Field) : fieldKey f ≠ [] := by
+  simp only [fieldKey, lenStr, List.append_assoc]
+  intro h
+  have := congrArg List.length h
+  simp at this
+
+theorem fieldKeys_inj : ∀ {fs gs : List Field}, (fs.map fieldKey).flatten = (gs.map fieldKey).flatten → fs = gs
+  | [], [], _ => rfl
+  | [], g :: gs, h => by
+    simp only [List.map_nil, List.flatten_nil, List.map_cons, List.flatten_cons] at h
+    have := fieldKey_ne_nil g
+    cases hk : fieldKey g with
+    | nil => exact absurd hk this
+    | cons a b => rw [hk] at h; simp at h
+  | f :: fs, [], h => by
+    simp only [List.map_nil, List.flatten_nil, List.map_cons, List.flatten_cons] at h
+    have := fieldKey_ne_nil f
+    cases hk : fieldKey f with
+    | nil => exact absurd hk this
+    | cons a b => rw [hk] at h; simp at h
+  | f :: fs, g :: gs, h => by
+    simp only [List.map_cons, List.flatten_cons] at h
+    have h1 := fieldKey_inj h
+    rw [h1.1, fieldKeys_inj h1.2]
+
+theorem structKey_inj {p p' : Str} {fs fs' : List Field} (h : structKey p fs = structKey p' fs') :
+    fs = fs' ∧ keyPkg p fs = keyPkg p' fs' := by
+  unfold structKey at h
+  have h1 := lenStr_inj h
+  exact ⟨fieldKeys_inj h1.2, h1.1⟩
+
+theorem fieldIdentical_iff (p p' : Str) (f g : Field) :
+    fieldIdentical p p' f g = true ↔ f = g ∧ (f.exported = true ∨ p = p') := by
+  cases f; cases g
+  simp only [fieldIdentical, Bool.and_eq_true, beq_iff_eq, Bool.or_eq_true, Field.mk.injEq]
+  constructor
+  · rintro ⟨⟨⟨⟨⟨h1, h2⟩, h3⟩, h4⟩, h5⟩, h6⟩; exact ⟨⟨h1, h2, h5, h3, h4⟩, h6⟩
+  · rintro ⟨⟨h1, h2, h5, h3, h4⟩, h6⟩; exact ⟨⟨⟨⟨⟨h1, h2⟩, h3⟩, h4⟩, h5⟩, h6⟩
+
+theorem fieldsIdentical_iff (p p' : Str) : ∀ (fs gs : List Field),
+    fieldsIdentical p p' fs gs = true ↔ fs = gs ∧ (fs.any (fun f => !f.exported) = true → p = p')
+  | [], [] => by simp [fieldsIdentical]
+  | [], _ :: _ => by simp [fieldsIdentical]
+  | _ :: _, [] => by simp [fieldsIdentical]
+  | f :: fs, g :: gs => by
+    simp only [fieldsIdentical, Bool.and_eq_true, fieldIdentical_iff, fieldsIdentical_iff p p' fs gs,
+      List.cons.injEq, List.any_cons, Bool.or_eq_true, Bool.not_eq_true']
+    constructor
+    · rintro ⟨⟨rfl, h1⟩, rfl, h2⟩
+      refine ⟨⟨rfl, rfl⟩, ?_⟩
+      rintro (h | h)
+      · rcases h1 with h1 | h1
+        · simp_all
+        · exact h1
+      · exact h2 h
+    · rintro ⟨⟨rfl, rfl⟩, h⟩
+      refine ⟨⟨rfl, ?_⟩, rfl, fun hh => h (Or.inr hh)⟩
+      cases he : f.exported
+      · exact Or.inr (h (Or.inl he))
+      · exact Or.inl rfl
+
+/-- struct key equality ⇔ Go identity of the two struct types -/
+theorem structKey_iff_identical (p p' : Str) (fs fs' : List Field) :
+    structKey p' fs' = structKey p fs ↔ fieldsIdentical p' p fs' fs = true := by
+  rw [fieldsIdentical_iff]
+  constructor
+  · intro h
+    have := structKey_inj h
+    refine ⟨this.1, fun ha => ?_⟩
+    have h2 := this.2
+    rw [this.1] at h2 ha
+    simpa [keyPkg, ha] using h2
+  · rintro ⟨rfl, h⟩
+    unfold structKey keyPkg
+    cases ha : fs'.any (fun f => !f.exported)
+    · rfl
+    · rw [h ha]
+
+/-! ### interfaces: the key is injective when package paths and method names avoid the separators -/
+
+def mcore (m : Method) : Str := m.pkg ++ ',' :: (m.name ++ ',' :: dec m.typ)
+
+/-- Go identifiers and import paths never contain `,` or `$` -/
+def CleanMethod (m : Method) : Prop := ',' ∉ m.pkg ∧ '$' ∉ m.pkg ∧ ',' ∉ m.name ∧ '$' ∉ m.name
+
+instance : DecidablePred CleanMethod := fun m => by unfold CleanMethod; infer_instance
+
+theorem mcore_inj {m n : Method} (hm : CleanMethod m) (hn : CleanMethod n) (h : mcore m = mcore n) : m = n := by
+  have h1 := append_sep_inj hm.1 hn.1 h
+  have h2 := append_sep_inj hm.2.2.1 hn.2.2.1 h1.2
+  cases m; cases n
+  simp only [Method.mk.injEq]
+  exact ⟨h2.1, h1.1, dec_inj h2.2⟩
+
+theorem mcore_clean {m : Method} (hm : CleanMethod m) : '$' ∉ mcore m ∧ mcore m ≠ [] := by
+  constructor
+  · have := dollar_not_dec m.typ
+    simp only [mcore, List.mem_append, List.mem_cons, not_or]
+    exact ⟨hm.2.1, by decide, hm.2.2.2, by decide, this⟩
+  · simp [mcore]
+
+theorem map_mcore_inj : ∀ {ms ns : List Method}, (∀ m ∈ ms, CleanMethod m) → (∀ m ∈ ns, CleanMethod m) →
+    ms.map mcore = ns.map mcore → ms = ns
+  | [], [], _, _, _ => rfl
+  | [], _ :: _, _, _, h => by simp at h
+  | _ :: _, [], _, _, h => by simp at h
+  | m :: ms, n :: ns, h1, h2, h => by
+    simp only [List.map_cons, List.cons.injEq] at h
+    rw [mcore_inj (h1 m (by simp)) (h2 n (by simp)) h.1,
+      map_mcore_inj (fun x hx => h1 x (by simp [hx])) (fun x hx => h2 x (by simp [hx])) h.2]
+
+theorem ifaceKey_inj {ms ns : List Method} (h1 : ∀ m ∈ ms, CleanMethod m) (h2 : ∀ m ∈ ns, CleanMethod m)
+    (h : ifaceKey ms = ifaceKey ns) : ms = ns := by
+  apply map_mcore_inj h1 h2
+  apply joinSep_inj _ _ _ _ h
+  · intro x hx
+    simp only [List.mem_map] at hx
+    obtain ⟨m, hm, rfl⟩ := hx
+    exact mcore_clean (h1 m hm)
+  · intro x hx
+    simp only [List.mem_map] at hx
+    obtain ⟨m, hm, rfl⟩ := hx
+    exact mcore_clean (h2 m hm)
+
+/-- constructors whose cache key is injective: all of them; for interface types under the syntactic side condition that
+    package paths and method names contain no `,`/`$` (true of every Go identifier and import path) -/
 def KeyInjective : Ctor → Prop
-  | .array .. | .chan .. | .func .. | .map .. | .ptr .. | .slice .. => True
-  | .iface .. | .struct .. => False
+  | .iface ms => ∀ m ∈ ms, CleanMethod m
+  | _ => True
 
 instance : DecidablePred KeyInjective := fun c => by cases c <;> unfold KeyInjective <;> infer_instance
 
-/-- for arrays, channels, functions, maps, pointers and slices: same cache key ⇔ identical in Go -/
+/-- same cache key ⇔ identical in Go, for every pair of constructor calls -/
 theorem key_iff_identical (c1 c2 : Ctor) (h1 : KeyInjective c1) (h2 : KeyInjective c2) :
     ckey c2 = ckey c1 ↔ goIdentical c2 c1 = true := by
   cases c1 <;> cases c2 <;> simp only [KeyInjective] at h1 h2 <;>
@@ -384,6 +554,14 @@ theorem key_iff_identical (c1 c2 : Ctor) (h1 : KeyInjective c1) (h2 : KeyInjecti
     · rintro ⟨⟨rfl, rfl⟩, h⟩
       refine ⟨?_, rfl⟩
       cases so' <;> cases ro <;> cases ro' <;> simp_all
+  case struct.struct p fs p' fs' =>
+    constructor
+    · rintro ⟨_, h⟩; exact (structKey_iff_identical p p' fs fs').mp h
+    · intro h; exact ⟨trivial, (structKey_iff_identical p p' fs fs').mpr h⟩
+  case iface.iface ms ns =>
+    constructor
+    · rintro ⟨_, h⟩; exact ifaceKey_inj h2 h1 h
+    · rintro rfl; exact ⟨trivial, rfl⟩
   all_goals
     constructor
     · rintro ⟨hs, _⟩
@@ -393,120 +571,44 @@ theorem key_iff_identical (c1 c2 : Ctor) (h1 : KeyInjective c1) (h2 : KeyInjecti
       all_goals decide
     · intro h; cases h
 
-/-- `canon_identity`, the full-strength statement (NOT claimed: false today for structs):
-    two successive constructor calls yield the same run-time type object iff the types are identical in Go -/
-def canon_identity_full : Prop :=
-  ∀ s, WF s → ∀ c1 c2, ((canon (canon s c1).1 c2).2 = (canon s c1).2 ↔ goIdentical c2 c1 = true)
-
-/-- proved for every constructor whose key is injective: arrays, channels, functions, maps, pointers, slices -/
-theorem canon_identity_partial (s : St) (h : WF s) (c1 c2 : Ctor) (h1 : KeyInjective c1) (h2 : KeyInjective c2) :
+/-- `canon_identity` at full strength for every constructor (structs included since the key repair; interfaces under the
+    syntactic condition `CleanMethod`): two successive constructor calls yield the same run-time type object iff the two
+    types are identical in Go. -/
+theorem canon_identity (s : St) (h : WF s) (c1 c2 : Ctor) (h1 : KeyInjective c1) (h2 : KeyInjective c2) :
     (canon (canon s c1).1 c2).2 = (canon s c1).2 ↔ goIdentical c2 c1 = true :=
   (canon_same_iff_key s h c1 c2).trans (key_iff_identical c1 c2 h1 h2)
 
-example : KeyInjective (.func [1, 16] [0] true) ∧ KeyInjective (.array 16 3) := ⟨trivial, trivial⟩
+/-- the unconditional statement (NOT claimed): false only for interface method lists whose package path or method name
+    contains `,` or `$` — impossible for Go programs -/
+def canon_identity_full : Prop :=
+  ∀ s, WF s → ∀ c1 c2, ((canon (canon s c1).1 c2).2 = (canon s c1).2 ↔ goIdentical c2 c1 = true)
+
+theorem canon_identity_counterexample_ifacename : ¬ canon_identity_full := fun h => by
+  have := h init WF_init (.iface [{ name := lit "M", pkg := lit "a,b", typ := 20 }])
+    (.iface [{ name := lit "b,M", pkg := lit "a", typ := 20 }])
+  revert this; decide
+
+example : KeyInjective (.func [1, 16] [0] true) ∧ KeyInjective (.array 16 3) ∧
+    KeyInjective (.iface [{ name := lit "m", pkg := lit "a/b", typ := 20 }]) := by
+  refine ⟨trivial, trivial, ?_⟩; unfold KeyInjective; decide
 example : WF (canon init (.map 16 1)).1 := WF_canon _ WF_init _
 
 def fT (emb : Bool) : Field := { name := ['T'], embedded := emb, exported := true, typ := 1, tag := [] }
-
-/-- witness 1: `struct{ T }` and `struct{ T T }` share one run-time type (`$structTypes` key omits `embedded`) -/
-theorem canon_identity_counterexample_embedded : ¬ canon_identity_full := fun h => by
-  have := h init WF_init (.struct [] [fT true]) (.struct [] [fT false])
-  revert this; decide
-
 def fTag (n : String) (t : Nat) (tag : String) : Field :=
   { name := n.toList, embedded := false, exported := false, typ := t, tag := tag.toList }
 
-/-- witness 2: ``struct{ a int `x$b,1,` }`` and ``struct{ a int `x`; b int }`` share one run-time type
-    (key separators `$` and `,` may occur inside tags) -/
-theorem canon_identity_counterexample_tag : ¬ canon_identity_full := fun h => by
-  have := h init WF_init (.struct (lit "p") [fTag "a" 1 "x$b,1,"]) (.struct (lit "p") [fTag "a" 1 "x", fTag "b" 1 ""])
-  revert this; decide
+/-! #### repaired defects (round 2): the three collisions of the old key `name,typ.id,tag` joined by `$` -/
 
-/-- witness 3: `struct{ x int }` of package p and of package q share one run-time type (key omits `pkgPath`) -/
-theorem canon_identity_counterexample_pkgpath : ¬ canon_identity_full := fun h => by
-  have := h init WF_init (.struct (lit "p") [fTag "x" 1 ""]) (.struct (lit "q") [fTag "x" 1 ""])
-  revert this; decide
-
-/-! ### structs: the key is injective when names and tags avoid the separators and the omitted
-    components (`embedded`, `exported`, `pkgPath`) are determined by the included ones -/
-
-def fcore (f : Field) : Str := f.name ++ ',' :: (dec f.typ ++ ',' :: f.tag)
-
-/-- Go identifiers never contain `,` or `$`; tags may: that is the hypothesis -/
-def CleanField (f : Field) : Prop := ',' ∉ f.name ∧ '$' ∉ f.name ∧ '$' ∉ f.tag
-
-instance : DecidablePred CleanField := fun f => by unfold CleanField; infer_instance
-
-theorem fcore_inj {f g : Field} (hf : CleanField f) (hg : CleanField g) (h : fcore f = fcore g) :
-    f.name = g.name ∧ f.typ = g.typ ∧ f.tag = g.tag := by
-  have h1 := append_sep_inj hf.1 hg.1 h
-  have h2 := append_sep_inj (comma_not_dec _) (comma_not_dec _) h1.2
-  exact ⟨h1.1, dec_inj h2.1, h2.2⟩
-
-theorem fcore_clean {f : Field} (hf : CleanField f) : '$' ∉ fcore f ∧ fcore f ≠ [] := by
-  constructor
-  · have := dollar_not_dec f.typ
-    simp only [fcore, List.mem_append, List.mem_cons, not_or]
-    exact ⟨hf.2.1, by decide, this, by decide, hf.2.2⟩
-  · simp [fcore]
-
-theorem structKey_inj {fs fs' : List Field} (h : ∀ f ∈ fs, CleanField f) (h' : ∀ f ∈ fs', CleanField f)
-    (hk : structKey fs = structKey fs') : fs.map fcore = fs'.map fcore := by
-  apply joinSep_inj _ _ _ _ hk
-  · intro x hx
-    simp only [List.mem_map] at hx
-    obtain ⟨f, hf, rfl⟩ := hx
-    exact fcore_clean (h f hf)
-  · intro x hx
-    simp only [List.mem_map] at hx
-    obtain ⟨f, hf, rfl⟩ := hx
-    exact fcore_clean (h' f hf)
-
-/-- the components the key omits are functions of the ones it includes (true of compiler output when an embedded
-    field is never named like a differently-declared field of the same type, and all structs are of one package) -/
-def FlagsAgree (p p' : Str) (fs fs' : List Field) : Prop :=
-  ∀ f ∈ fs, ∀ g ∈ fs', f.name = g.name → f.typ = g.typ →
-    (f.embedded = g.embedded ∧ f.exported = g.exported ∧ (f.exported = true ∨ p = p'))
-
-theorem structKey_iff_identical (p p' : Str) : ∀ (fs fs' : List Field), (∀ f ∈ fs, CleanField f) → (∀ f ∈ fs', CleanField f) →
-    FlagsAgree p p' fs fs' → (fs.map fcore = fs'.map fcore ↔ fieldsIdentical p p' fs fs' = true)
-  | [], [], _, _, _ => by simp [fieldsIdentical]
-  | [], _ :: _, _, _, _ => by simp [fieldsIdentical]
-  | _ :: _, [], _, _, _ => by simp [fieldsIdentical]
-  | f :: fs, g :: gs, h, h', ha => by
-    have ih := structKey_iff_identical p p' fs gs (fun x hx => h x (List.mem_cons_of_mem _ hx))
-      (fun x hx => h' x (List.mem_cons_of_mem _ hx))
-      (fun x hx y hy => ha x (List.mem_cons_of_mem _ hx) y (List.mem_cons_of_mem _ hy))
-    simp only [List.map_cons, List.cons.injEq, fieldsIdentical, Bool.and_eq_true]
-    constructor
-    · rintro ⟨h1, h2⟩
-      have hc := fcore_inj (h f (by simp)) (h' g (by simp)) h1
-      have hfl := ha f (by simp) g (by simp) hc.1 hc.2.1
-      refine ⟨?_, ih.mp h2⟩
-      simp only [fieldIdentical, Bool.and_eq_true, beq_iff_eq, Bool.or_eq_true]
-      exact ⟨⟨⟨⟨⟨hc.1, hfl.1⟩, hc.2.1⟩, hc.2.2⟩, hfl.2.1⟩, hfl.2.2⟩
-    · rintro ⟨h1, h2⟩
-      simp only [fieldIdentical, Bool.and_eq_true, beq_iff_eq, Bool.or_eq_true] at h1
-      refine ⟨?_, ih.mpr h2⟩
-      simp only [fcore]
-      rw [h1.1.1.1.1.1, h1.1.1.1.2, h1.1.1.2]
-
-/-- `canon_identity` for structs under the explicit hypotheses `CleanField` (no `$`/`,` where the key cannot
-    tell them from separators) and `FlagsAgree` (omitted components determined) -/
-theorem canon_identity_struct_partial (s : St) (h : WF s) (p p' : Str) (fs fs' : List Field)
-    (hc : ∀ f ∈ fs, CleanField f) (hc' : ∀ f ∈ fs', CleanField f) (ha : FlagsAgree p' p fs' fs) :
-    (canon (canon s (.struct p fs)).1 (.struct p' fs')).2 = (canon s (.struct p fs)).2
-      ↔ goIdentical (.struct p' fs') (.struct p fs) = true := by
-  rw [canon_same_iff_key s h]
-  simp only [ckey, goIdentical, Prod.mk.injEq, true_and]
-  rw [← structKey_iff_identical p' p fs' fs hc' hc ha]
-  constructor
-  · exact structKey_inj hc' hc
-  · intro hm; unfold structKey; exact congrArg _ hm
-
-example : (∀ f ∈ [fTag "a" 1 "json:\"a,omitempty\"", fT true], CleanField f) := by decide
-example : FlagsAgree (lit "p") (lit "p") [fTag "a" 1 "k", fT true] [fTag "a" 1 "k", fT true] := by
-  intro f hf g hg; revert f g; decide
+/-- old key: `struct{ T }` and `struct{ T T }` collide; the repaired key separates them -/
+theorem old_structKey_collision_embedded :
+    structKeyOld [fT true] = structKeyOld [fT false] ∧ structKey [] [fT true] ≠ structKey [] [fT false] := by decide
+/-- old key: ``struct{ a int `x$b,1,` }`` and ``struct{ a int `x`; b int }`` collide -/
+theorem old_structKey_collision_tag :
+    structKeyOld [fTag "a" 1 "x$b,1,"] = structKeyOld [fTag "a" 1 "x", fTag "b" 1 ""] ∧
+    structKey (lit "p") [fTag "a" 1 "x$b,1,"] ≠ structKey (lit "p") [fTag "a" 1 "x", fTag "b" 1 ""] := by decide
+/-- old key ignores the package of non-exported field names -/
+theorem old_structKey_collision_pkgpath :
+    structKey (lit "p") [fTag "x" 1 ""] ≠ structKey (lit "q") [fTag "x" 1 ""] := by decide
 
 /-! ## 3. `methodset_correct` -/
 
